@@ -850,14 +850,24 @@ static Value gen_value_(Ctx &c, FK fk) {
 
 // ------------------------------------------------------------------------------------------------
 // applying a value
-static int apply(Obj *o, const char *name, const Value &v) {
+// attr: the value goes through a C++ object::attribute already selected by name (obj[name] = value): the attribute
+// sets under the name the getter resolved; result 0 accepted / BadValue dropped (the C++ interface has no error code)
+static int apply(Obj *o, const char *name, const Value &v, mpt::object::attribute *attr = 0) {
+  struct Attr {
+    static int named(mpt::object::attribute *a) { return static_cast<const mpt::property &>(*a).name ? 0 : (int)mpt::BadValue; }
+  };
   switch (v.mode) {
-    case MSetString: return mpt::mpt_object_set_string(o->object(), name, v.text.c_str(), 0);
-    case MNoValue: return mpt::mpt_object_set_string(o->object(), name, 0, 0);
+    case MSetString:
+      if (attr) { *attr = v.text.c_str(); return Attr::named(attr); }
+      return mpt::mpt_object_set_string(o->object(), name, v.text.c_str(), 0);
+    case MNoValue:
+      if (attr) { *attr = (const char *)0; return Attr::named(attr); }
+      return mpt::mpt_object_set_string(o->object(), name, 0, 0);
     case MConvString: {
       std::unique_ptr<char[]> own(new char[v.text.size() + 1]);  // exact-size copy: the library must not keep it
       memcpy(own.get(), v.text.c_str(), v.text.size() + 1);
       StringConv sc; sc.txt = own.get();
+      if (attr) return attr->set(*sc.iface()) ? 0 : (int)mpt::BadValue;
       return o->set(name, sc.iface());
     }
     default: break;
@@ -881,8 +891,24 @@ static int apply(Obj *o, const char *name, const Value &v) {
     struct iovec vec = {own.get(), v.text.size() + (v.vec_with_nul ? 1 : 0)};
     put(tc.data, vec);
   }
+  if (attr) {
+    if (v.mode != MValue) return attr->set(*tc.iface()) ? 0 : (int)mpt::BadValue;
+    CObj<mpt::value> val;
+    val->_type = (mpt::type_t)v.type;
+    val->_addr = tc.data.data();
+    return attr->set(*val.get()) ? 0 : (int)mpt::BadValue;
+  }
   if (v.mode == MValue) return Fin::value(o, name, v, tc.data);
   return o->set(name, tc.iface());
+}
+
+// Names the unchanged setters accept and the unchanged getters refuse (observed asymmetries, modelled): the getters match
+// the first 3 (axis, world) / 2 (graph) characters against the listed names only, text matches "x"/"y" by exact case.
+static bool get_refusal_modelled(int kind, const std::string &name) {
+  if (kind == KGraph) return name == "fg" || name == "bg" || name == "type";
+  if (kind == KAxis) return !strcasecmp(name.c_str(), "labelpos") || !strcasecmp(name.c_str(), "label position");
+  if (kind == KText) return name == "X" || name == "Y";
+  return false;
 }
 
 static std::string case_variant(Ctx &c, const NameEnt &ne) {
@@ -956,6 +982,29 @@ static void check_text_xy(Ctx &c, int kind, Obj *o, const Snapshot &s) {
   }
 }
 
+// a name the setter just accepted addresses the same property when it is read: get(name) resolves to the canonical
+// property (text "x"/"y": the coordinate) with the value read by position, or is one of the modelled refusals
+static void check_get_same_name(Ctx &c, int kind, Obj *o, const std::string &name, FK fk, const Prop &now, const char *what) {
+  CObj<mpt::property> pr;
+  pr->name = name.c_str();
+  int r = o->get(pr);
+  if (r < 0) {
+    VP_CHECK(c, get_refusal_modelled(kind, name), "set-name-unknown-to-get", "%s: the setter accepts the name %s (-> %s) but reading by that name returns %d", what, printable(name).c_str(), now.name.c_str(), r);
+    c.label("get:alias-refused-modelled");
+    return;
+  }
+  std::string want = fk == FTextX ? "x" : fk == FTextY ? "y" : now.name;
+  VP_CHECK(c, pr->name && want == pr->name, "get-by-name-other", "%s: reading %s gives property %s, the setter addresses %s under that name", what, printable(name).c_str(), pr->name ? pr->name : "(null)", want.c_str());
+  std::string val, exp = now.val;
+  if (fk == FTextX || fk == FTextY) {
+    VP_CHECK(c, (long)pr->val._type == 'f' && pr->val._addr, "get-bad-type", "%s: text %s has type %ld", what, want.c_str(), (long)pr->val._type);
+    float f; memcpy(&f, pr->val._addr, 4);
+    val = ren_f(f); exp = cur_component(now.val, fk == FTextY);
+  } else val = render(c, kind, pr->name, (long)pr->val._type, pr->val._addr, 0);
+  VP_CHECK(c, val == exp, "get-by-name-value", "%s: reading %s gives %s, the property reads %s by position", what, printable(name).c_str(), printable(val, 80).c_str(), printable(exp, 80).c_str());
+  c.label(name == now.name ? "get:same-name-canonical" : "get:same-name-alias-or-case");
+}
+
 // colour printed with operator<< and parsed again is the same colour
 static void check_color_print(Ctx &c, int kind, const char *name, const mpt::color &col) {
   std::ostringstream os;
@@ -1009,7 +1058,10 @@ static void run_history(Ctx &c, int flavour, int kind) {
 
     if (op == 0 || op == 1) {
       // name: a setter name (alias, case variant), sometimes a prefix or junk
-      size_t nsel = c.weighted({14, 1, 1});
+      // one byte: low nibble = weighted {14,1,1} name class, bits 4+5 both set (1 of 4) = through C++ obj[name] = value
+      uint8_t nb = c.u8();
+      size_t nsel = (nb & 15) < 14 ? 0 : (nb & 15) - 13;
+      bool via_attr = (nb & 0x30) == 0x30;
       const NameEnt &ne = ki.names[c.pick(ki.nnames)];
       fk = ne.fk;
       if (nsel == 0) { name = case_variant(c, ne); target_prop = find_prop(fresh, ne.canon); }
@@ -1027,6 +1079,21 @@ static void run_history(Ctx &c, int flavour, int kind) {
         if (target_prop >= 0) ex = expectation(kind, fk, fresh[target_prop].type, val, snap[t][target_prop].val);
         c.logf("step %u: %s", steps, what.c_str());
         if (ex.known) c.logf("    if accepted must read %s (%s)", printable(ex.val, 80).c_str(), ex.why.c_str());
+        if (via_attr && !unknown_name && target_prop >= 0) {
+          // C++ path: object::operator[] selects the property through property(name), the assignment sets under the
+          // resolved name. The name is one the setter knows, so the selection must find the same property.
+          mpt::object::attribute at = (*o->object())[name.c_str()];
+          const char *sel = static_cast<const mpt::property &>(at).name;
+          const char *want = fk == FTextX ? "x" : fk == FTextY ? "y" : fresh[target_prop].name.c_str();
+          c.logf("    through obj[%s]: selects %s", printable(name).c_str(), sel ? sel : "nothing");
+          c.label("set:via-attribute");
+          if (!sel) {
+            VP_CHECK(c, get_refusal_modelled(kind, name), "set-name-unknown-to-get", "%s: obj[%s] selects nothing although the setter knows the name (-> %s)", what.c_str(), printable(name).c_str(), want);
+            c.label("get:alias-refused-modelled");
+          } else
+            VP_CHECK(c, !strcmp(sel, want), "get-by-name-other", "%s: obj[%s] selects property %s, the setter addresses %s under that name", what.c_str(), printable(name).c_str(), sel, want);
+          ret = apply(o, name.c_str(), val, &at);
+        } else
         ret = apply(o, name.c_str(), val);
       } else {
         is_reset = true;
@@ -1155,6 +1222,7 @@ static void run_history(Ctx &c, int flavour, int kind) {
       } else if (target_prop >= 0) {
         std::string d = diff(snap[t], after[t], target_prop);
         VP_CHECK(c, d.empty(), "reset-changed-other", "%s (returns %d) changed another property: %s", what.c_str(), ret, d.c_str());
+        check_get_same_name(c, kind, o, name, fk, after[t][target_prop], what.c_str());
         std::string dflt = fresh[target_prop].val;  // "x"/"y" of text address one coordinate of pos
         if (fk == FTextX) dflt = "pt:" + cur_component(fresh[target_prop].val, 0) + "," + cur_component(snap[t][target_prop].val, 1);
         if (fk == FTextY) dflt = "pt:" + cur_component(snap[t][target_prop].val, 0) + "," + cur_component(fresh[target_prop].val, 1);
@@ -1176,6 +1244,7 @@ static void run_history(Ctx &c, int flavour, int kind) {
         VP_CHECK(c, d.empty(), "set-changed-other", "%s accepted (%d) changed another property: %s", what.c_str(), ret, d.c_str());
         const std::string &got = after[t][target_prop].val;
         c.logf("    %s reads %s", fresh[target_prop].name.c_str(), printable(got, 80).c_str());
+        check_get_same_name(c, kind, o, name, fk, after[t][target_prop], what.c_str());
         if (ex.known) {
           VP_CHECK(c, got == ex.val, ex.val[0] == '!' ? "accepted-no-such-value" : "readback-differs", "%s accepted (%d): %s reads %s, expected %s (%s)", what.c_str(), ret,
                    fresh[target_prop].name.c_str(), printable(got, 80).c_str(), printable(ex.val, 80).c_str(), ex.why.c_str());
